@@ -14,7 +14,8 @@ from vv.checks import c01
 
 PROPERTY = 'C06'
 LEVEL = 'fault_enumeration'
-RULE = ('scenario = setup calls, one or more injected faults (exception type x site {suggest, early-stop} x '
+RULE = ('scenario = setup calls, one or more injected faults (exception type x site {policy.suggest, early-stop, building the '
+        'algorithm in the policy factory} x '
         'schedule {first, k-th, every} or delivery delta in {-N..+3}), then 2..8 follow-up calls by the same and '
         'other workers with the fault switched off; deployments: in-process Pythia on RAM / in-memory SQLite, and '
         'remote Pythia over gRPC. Non-trivial = a fault actually fired and a reach-again probe ran after it; '
@@ -27,7 +28,7 @@ ASSUMPTIONS = [
     'early_stop_recycle_period is 0 so that a later check is entitled to reach the algorithm again',
     'bounded progress: one client call; the polling loop of VizierClient is exercised separately with a poll cap',
 ]
-REQUIRED_COUNTERS = ['faults_fired', 'reach_again_checked', 'faults_fired_suggest', 'faults_fired_early_stop',
+REQUIRED_COUNTERS = ['faults_fired', 'faults_fired_while_building_algorithm', 'reach_again_checked', 'faults_fired_suggest', 'faults_fired_early_stop',
                      'short_deliveries', 'unfinished_operation_scans', 'client_poll_probes']
 MIN_DISTINCT = {'quick': 120, 'thorough': 2000}
 
@@ -93,7 +94,7 @@ def gen_scenario(rng):
   # ---- faults + follow-ups ---------------------------------------------------
   site = rng.choice(['suggest', 'suggest', 'suggest', 'early_stop'])
   schedule = rng.choice(['first', 'kth', 'every'])
-  kind = rng.choice(['raise', 'raise', 'short', 'zero', 'over'])
+  kind = rng.choice(['raise', 'raise', 'short', 'zero', 'over', 'build', 'build'])
   exc = rng.choice(EXC)
   n_fault_calls = 1 if schedule == 'first' else rng.randint(2, 3)
   meta = {'site': site, 'schedule': schedule, 'kind': kind, 'exc': exc if kind == 'raise' else None}
@@ -109,11 +110,18 @@ def gen_scenario(rng):
 
   for j in range(n_fault_calls):
     faulty = (schedule != 'kth') or (j == n_fault_calls - 1)
-    if site == 'suggest':
+    if site == 'suggest' or kind == 'build':
       count = rng.choice([1, 2, 3, 5])
       # a big count so that the algorithm is certainly needed
       c = {'op': 'SuggestTrials', 'study': study, 'count': count + 6, 'client': rng.choice(['w1', 'w1', 'w2']),
-           '_stub_entry': fault_entry(count + 6) if faulty else {'delta': 0}, '_fault': faulty}
+           '_stub_entry': {'delta': 0}, '_fault': faulty}
+      if kind == 'build':
+        # the failure happens while the algorithm is being built (policy factory /
+        # constructor), i.e. outside policy.suggest(): it is not wrapped in RuntimeError
+        if faulty:
+          c['_factory_fault'] = {'site': rng.choice(['factory', 'constructor']), 'raise': exc}
+      elif faulty:
+        c['_stub_entry'] = fault_entry(count + 6)
       calls.append(c)
     else:
       # needs an ACTIVE trial to check
@@ -170,7 +178,12 @@ def run_scenario(ctx, index, deployment, calls, meta, servers):
       site = 'early_stop' if call['op'] == 'CheckTrialEarlyStoppingState' else 'suggest'
       disc += scan_unfinished(runner, site)
       ctx.count('unfinished_operation_scans')
-      reached = len(runner.controller.log) > log_before
+      reached = len(runner.controller.log) > log_before or (
+          call.get('_factory_fault') is not None and bool(runner.controller.factory_fault_log))
+      if call.get('_factory_fault') is not None and runner.controller.factory_fault_log:
+        ctx.count('faults_fired_while_building_algorithm')
+        ctx.count('exceptions_injected_at_build:' + call['_factory_fault']['raise'])
+        runner.controller.factory_fault_log.clear()
       if call.get('_fault') and reached:
         any_fault = True
         ctx.count('faults_fired')
